@@ -230,6 +230,13 @@ class ConcatenatedDrillhole(ConcatenatedObject, Drillhole):
             ind = len(self.depth_)
             label = f"({ind})"
 
+        # after a removal the count may point at a name that is still in use
+        while f"DEPTH{label}" in self.get_data_list() or (
+            property_group is None and self.get_property_group(f"depth_{ind}")[0]
+        ):
+            ind += 1
+            label = f"({ind})"
+
         if property_group is None:
             property_group = f"depth_{ind}"
 
@@ -323,6 +330,13 @@ class ConcatenatedDrillhole(ConcatenatedObject, Drillhole):
             ind = len(
                 list(set(self.from_))
             )  # todo: from_ return the same value x time why?
+            label = f"({ind})"
+
+        # after a removal the count may point at a name that is still in use
+        while f"FROM{label}" in self.get_data_list() or (
+            property_group is None and self.get_property_group(f"Interval_{ind}")[0]
+        ):
+            ind += 1
             label = f"({ind})"
 
         if property_group is None:
